@@ -682,6 +682,8 @@ theorem defineLoop_good (file : List Line) (sym : Bytes) (hsym : SymOk sym) (hfi
     rw [defineLoop] at h
     split at h
     · split at h
+      · exact ih _ _ _ r hrest hw h
+      split at h
       · cases h
       · next l hl =>
         have hlf := hfile l (List.mem_of_getElem? hl)
